@@ -8,14 +8,14 @@ from .qsmodel import CLASS2PROP
 from .runner import Stats, digest_dump, load_known, match_known
 
 COMPONENTS = {
-    "real": ["qs.rpcserver.Server.handle_client (per-connection loop, reader greenlet, kill links, JSON framing)",
-             "qs.rpcserver.Dispatcher/RequestHandler", "qs.qserve.QPlugin (all rpc_* and shutdown)",
-             "qs.qserve.Main.loaddb/savedb/handletimeouts/watchdog", "qs.jobs.workq and job",
-             "qs.misc.CallInLoop", "gevent hub, Event, AsyncResult, Queue, Greenlet.kill, Pool"],
-    "stub": ["TCP sockets (FakeSock, whole lines)", "time.time in qs.jobs (SimClock)",
-             "random in qs.jobs (ScriptedRandom)", "gevent.sleep inside CallInLoop (virtual timer heap)",
-             "worker processes (simulated clients issuing the worker RPCs)",
-             "Main.run's Handler class construction and timer table (mirrored; report loop omitted)"],
+    "real": ["qs.qserve.Main.__init__/loaddb/savedb/run (Handler class, timer loops report/watchdog/handletimeouts, finally: savedb)",
+             "qs.rpcserver.Server.handle_client (per-connection loop, reader greenlet, kill links, JSON framing, teardown)",
+             "qs.rpcserver.Dispatcher/RequestHandler", "qs.qserve.QPlugin (all rpc_* and shutdown)", "qs.jobs.workq and job",
+             "qs.misc.CallInLoop", "gevent hub, Event, AsyncResult, Queue, Greenlet.kill, Pool (timers virtualised through a loop proxy)"],
+    "stub": ["TCP sockets (FakeSock: whole lines, EOF, reset with EPIPE on write/close, pipelining)",
+             "rpcserver.Server.__init__ and run_forever (they bind and serve a TCP socket)",
+             "time.time / time.monotonic in qs.jobs (SimClock)", "random in qs.jobs (ScriptedRandom; optional)",
+             "gevent timers (virtual, vsim/vtimer.py)", "worker and client processes (simulated clients issuing the RPCs)"],
 }
 
 
